@@ -99,11 +99,13 @@ def lattice_cell(cell):
 
 def cases(tier, seed):
     out = []
-    for box in ([-2, 2], [-1, 1], [0, 2]):
+    # (the last three boxes have a bound a hair - far less than the de-duplication tolerance - INSIDE a lattice point: a
+    # candidate on that lattice point is outside the box by 5e-8 .. 3e-7)
+    for box in ([-2, 2], [-1, 1], [0, 2], [-2, 2 - 1e-7], [-1 + 3e-7, 1], [5e-8, 2 - 5e-8]):
         for proj in (True, False):
             for cons in (False, True):
                 out.append({"kind": "lattice", "D": 1, "box": box, "proj": proj, "cons": cons})
-    for box in ([-1, 1], [0, 1]):
+    for box in ([-1, 1], [0, 1], [-1, 1 - 1e-7]):
         for proj in (True, False):
             for cons in (False, True):
                 out.append({"kind": "lattice", "D": 2, "box": box, "proj": proj, "cons": cons, "nlogs": 12 if tier == "quick" else 120, "seed": seed + 3})
